@@ -2,6 +2,7 @@ package main
 
 import (
 	"fmt"
+	"regexp"
 	"strings"
 
 	distiller "github.com/markusmobius/go-domdistiller"
@@ -57,9 +58,11 @@ func runC14(c *Ctx, idx int) {
 		if strings.Contains(d.Sig, "og") && !strings.Contains(d.Sig, "og15") {
 			c.Inc("og_disqualified_pages")
 		}
-		if normMarkup(got) != normMarkup(d.Want) {
-			field := firstMarkupDiff(got, d.Want)
-			c.Violation("by-construction:"+field, fmt.Sprintf("canonical page (%s): MarkupInfo.%s differs from the value expected by construction\n got  %s\n want %s", d.Sig, field, normMarkup(got), normMarkup(d.Want)),
+		if d.ArticleWild {
+			d.Want.Article = got.Article
+		}
+		if field := markupDisagrees(got, d.Want); field != "" {
+			c.Violation("by-construction:"+field, fmt.Sprintf("canonical page (%s): MarkupInfo.%s does not come from the source expected by construction\n got  %s\n want %s", d.Sig, field, normMarkup(got), normMarkup(d.Want)),
 				map[string]any{"html": d.All, "got": got, "want": d.Want, "spec": d.Sig})
 			return
 		}
@@ -135,6 +138,48 @@ func runC14(c *Ctx, idx int) {
 		c.Sig("A|" + d.Sig + "|" + branch)
 	}
 	c.Sample(func() any { return map[string]any{"case": idx, "html": trunc(d.All, 1500), "markup": all} })
+}
+
+var rxValueTok = regexp.MustCompile(`[A-Za-z]*\d+[A-Za-z]*`)
+
+// agrees: a field is empty iff the expected one is, and otherwise carries
+// every unique token of the expected value (so the *source* is checked, not
+// the exact formatting a parser gives its value).
+func fieldAgrees(got, want string) bool {
+	if want == "*" {
+		return true // not specified for this input
+	}
+	if want == "" || got == "" {
+		return want == got
+	}
+	for _, t := range rxValueTok.FindAllString(want, -1) {
+		if !strings.Contains(got, t) {
+			return false
+		}
+	}
+	return true
+}
+
+func markupDisagrees(got, want data.MarkupInfo) string {
+	type f struct{ name, g, w string }
+	for _, x := range []f{{"Title", got.Title, want.Title}, {"Type", got.Type, want.Type}, {"URL", got.URL, want.URL}, {"Description", got.Description, want.Description},
+		{"Publisher", got.Publisher, want.Publisher}, {"Copyright", got.Copyright, want.Copyright}, {"Author", got.Author, want.Author},
+		{"Article.PublishedTime", got.Article.PublishedTime, want.Article.PublishedTime}, {"Article.ModifiedTime", got.Article.ModifiedTime, want.Article.ModifiedTime},
+		{"Article.ExpirationTime", got.Article.ExpirationTime, want.Article.ExpirationTime}, {"Article.Section", got.Article.Section, want.Article.Section},
+		{"Article.Authors", strings.Join(got.Article.Authors, " "), strings.Join(want.Article.Authors, " ")}} {
+		if !fieldAgrees(x.g, x.w) {
+			return x.name
+		}
+	}
+	if len(got.Images) != len(want.Images) {
+		return "Images"
+	}
+	for i := range want.Images {
+		if !fieldAgrees(got.Images[i].URL, want.Images[i].URL) || !fieldAgrees(got.Images[i].Caption, want.Images[i].Caption) {
+			return "Images"
+		}
+	}
+	return ""
 }
 
 func firstMarkupDiff(a, b data.MarkupInfo) string {
